@@ -293,9 +293,16 @@ def gen_targeted(rng, count=60):
                     dev('sink', [2], cyc=0)]
             script = [dict(t=t1, call='shutdown', dev=2), dict(t=t1 + rng.choice([0, 1, 2]), call='fail', dev=2, arg=rng.choice([0, 0, 1])),
                       dict(t=t1 + rng.choice([3, 4, 6]), call='restore', dev=2, prio=rng.choice([20, 90]))]
+            if rng.random() < 0.4:
+                # stopped in the instant between the end of a cycle and the release of the resources, failing while stopped
+                t1 = devs[0]['cyc'] * rng.choice([1, 2]) + c
+                script = [dict(t=t1, prio=rng.choice([75, 65]), call='shutdown', dev=2), dict(t=t1 + 1, call='fail', dev=2, arg=rng.choice([0, 1])),
+                          dict(t=t1 + rng.choice([3, 4]), call='restore', dev=2, prio=90)]
+                devs[1]['req'] = {'A': 1}
+                devs += [src(rng.choice([3, 5]), 2, pval=1), dev('processor', [4], cyc=2, req={'A': 1}), dev('sink', [5], cyc=0)]
             cfg = dict(devs=devs, script=script, horizon=H, pools={'A': 1})
             fam = 'fail-in-maintenance'
-        elif kind == 1 and i % 16 == 1:   # two machines whose outages overlap, the one shut down later is restored first
+        elif kind == 1 and i % 32 == 1:   # two machines whose outages overlap, the one shut down later is restored first
             devs = [src(1, rng.choice([3, 5, -1]), pval=1), dev('processor', [1], cyc=rng.choice([8, 10])),
                     dev('buffer', [2], cap=2, delay=0), dev('processor', [3], cyc=rng.choice([8, 10, 12])), dev('sink', [4], cyc=0)]
             t1 = rng.choice([13, 14, 15])
@@ -313,6 +320,9 @@ def gen_targeted(rng, count=60):
             t1 = rng.choice([2, 3, 4])
             script = [dict(t=t1, call='shutdown', dev=2), dict(t=t1 + a, call='restore', dev=2),
                       dict(t=t1 + a + 2, call='shutdown', dev=2), dict(t=t1 + a + 2 + rng.choice([1, 2, 3]), call='restore', dev=2)]
+            if rng.random() < 0.5:      # a failure scheduled for later is paused and resumed together with the cycle timer
+                script.insert(0, dict(t=1, prio=115, call='fail', dev=2, arg=rng.choice([6, 8, 12, 16])))
+                script.append(dict(t=rng.choice([22, 26]), call='restore', dev=2, prio=90))
             cfg = dict(devs=devs, script=script, horizon=H)
             fam = 'double-shutdown'
         elif kind == 2:      # k lines competing for one pool that is released / enlarged
@@ -328,13 +338,20 @@ def gen_targeted(rng, count=60):
                 script.append(dict(t=rng.choice([1, 2, 4]), call='addres', res='A', arg=rng.choice([1, 2, 2, 3])))
             if rng.random() < 0.3:
                 script.append(dict(t=rng.choice([6, 9]), call='addres', res='A', arg=-1))
+            if i % 16 == 2:     # the capacity drops to exactly zero under a holder and rises again
+                cap = rng.choice([1, 2])
+                for d in devs:
+                    if d['kind'] == 'processor':
+                        d['cyc'] = rng.choice([4, 5, 6])
+                t = rng.choice([2, 3, 4])
+                script = [dict(t=t, call='addres', res='A', arg=-cap), dict(t=t + rng.choice([1, 2]), call='addres', res='A', arg=rng.choice([1, 2]))]
             cfg = dict(devs=devs, script=script, horizon=H, pools={'A': cap})
             fam = 'contention'
         elif kind == 3:      # zero-length cycles and one-shot offsets from receive and finish callbacks
             devs = [src(rng.choice([1, 2, 3]), rng.choice([5, 8, -1]), pval=1),
                     dev('processor', [1], cyc=rng.choice([0, 1, 2, 4]), offmod=rng.choice([0, -3, -5, -10, 2]),
                         offmod2=rng.choice([0, 0, 3, 2]), foff=rng.choice([0, 1, 3]), cycmod=rng.choice([0, 0, 2, 3])),
-                    dev('sink', [2], cyc=rng.choice([0, 1]))]
+                    dev('sink', [2], cyc=rng.choice([0, 1]), offmod=rng.choice([0, 0, 2, 4]))]
             cfg = dict(devs=devs, horizon=H)
             fam = 'offsets'
         elif kind == 4:      # calls made between two runs (split horizon)
@@ -696,7 +713,7 @@ def gen_groups(rng, count=40):
     out = []
     while len(out) < count:
         shape = rng.choice(['shared', 'shared', 'reentrant', 'two-machine', 'nested', 'gate-only', 'nested-inner-first',
-                            'batch-path', 'rework-path', 'multi-input'])
+                            'batch-path', 'rework-path', 'multi-input', 'path-fanout', 'blocked-exit'])
         devs = []
         script = []
         if shape in ('shared', 'two-machine'):
@@ -723,6 +740,34 @@ def gen_groups(rng, count=40):
                 t = rng.choice([2, 4])
                 script = [dict(t=t, call='block', dev=rng.choice([p1, p2])), dict(t=t + rng.choice([3, 6]), call='unblock', dev=p1),
                           dict(t=t + 7, call='unblock', dev=p2)]
+        elif shape == 'path-fanout':    # the parts of one path leave the group towards two machines that are both free
+            devs.append(src(rng.choice([2, 3]), rng.choice([3, 5, -1]), pval=1))
+            devs.append(src(rng.choice([2, 4]), rng.choice([3, 5]), pval=2))
+            devs.append(dev('processor', [], cyc=rng.choice([1, 2])))
+            gin, gout = group_block(devs, [3])
+            devs.append(dev('gpath', [1], gin=gin, gout=gout))
+            p1 = len(devs)
+            devs.append(dev('gpath', [2], gin=gin, gout=gout))
+            p2 = len(devs)
+            devs.append(dev(rng.choice(['handler', 'processor']), [p1], cyc=rng.choice([1, 3])))
+            devs.append(dev(rng.choice(['handler', 'processor', 'buffer']), [p1], cyc=rng.choice([1, 2]), cap=2))
+            devs.append(dev('sink', [len(devs) - 1, len(devs), p2], cyc=0))
+        elif shape == 'blocked-exit':   # a path's entry is closed while its part, finished inside the group, waits for a stopped machine
+            devs.append(src(rng.choice([1, 2]), rng.choice([4, 6, -1]), pval=1))
+            devs.append(src(rng.choice([2, 3]), rng.choice([3, 5]), pval=2))
+            devs.append(dev('processor', [], cyc=rng.choice([1, 2])))
+            gin, gout = group_block(devs, [3])
+            devs.append(dev('gpath', [1], gin=gin, gout=gout))
+            p1 = len(devs)
+            devs.append(dev('gpath', [2], gin=gin, gout=gout))
+            p2 = len(devs)
+            devs.append(dev('processor', [p1], cyc=rng.choice([1, 2])))
+            da = len(devs)
+            devs.append(dev('sink', [da], cyc=0))
+            devs.append(dev('sink', [p2], cyc=0))
+            t = rng.choice([0, 1])
+            script = [dict(t=t, prio=115, call='shutdown', dev=da), dict(t=t + rng.choice([4, 5]), call='block', dev=p1),
+                      dict(t=t + 7, call='restore', dev=da), dict(t=t + rng.choice([10, 12]), call='unblock', dev=p1)]
         elif shape == 'gate-only':      # a group made of a shared decision gate only (nothing in it holds a part)
             devs.append(src(rng.choice([1, 2]), rng.choice([3, 5]), pval=1))
             devs.append(src(rng.choice([2, 3]), rng.choice([2, 4]), pval=1))
